@@ -9,7 +9,7 @@
    statements are C27_converge (safety, all schedules), C27_full_partial
    (liveness under "no stalled subscriber") and C27_unsub. *)
 From Coq Require Import List.
-From Verif Require Import Discovery.Helium Discovery.StreamProofs Discovery.HeliumProofs Discovery.OkProofs.
+From Verif Require Import Discovery.Helium Discovery.StreamProofs Discovery.HeliumProofs Discovery.OkProofs Discovery.GenProofs.
 Import ListNotations.
 
 (* store/etcdv3 ServiceStatusStream: watch before get.  Whatever is committed
@@ -118,3 +118,13 @@ Theorem C27_ok_complete : forall c,
 Proof. exact OkProofs.ok_complete. Qed.
 Print Assumptions C27_ok_complete.
 
+
+(* ok accepts the model's own observations (canonical schedule of the system
+   goroutines) for EVERY script the harness can produce (subscriber keys
+   distinct, subscriber numbers in range) in which no dispatch is triggered
+   while a subscriber in the map neither reads nor is cancelled -- the tag
+   stall_exposed of the known finding, defined here as OkProofs.exposed *)
+Theorem C27_ok_gen : forall acts,
+  wf_from [] acts = true -> exposed acts = false -> ok (OkProofs.gen_case acts) = true.
+Proof. exact GenProofs.ok_gen. Qed.
+Print Assumptions C27_ok_gen.
